@@ -7,7 +7,7 @@ CHECK = {
              "cospherical, integer lattice block, tight clusters with exact duplicates, co-circular rings, cube surface, "
              "nearly flat facet under an apex, simplex lattice, collinear points on cone/cylinder/hyperboloid rulings, shell+core; 12% of them thin slabs/needles; 28% one Manifold "
              "via Hull() or several via Hull(vector), a third of the latter together with a RefineToLength copy of the "
-             "first operand = exact duplicates plus collinear/coplanar points) under identity/scaled/rotated/anisotropic/far-translated placement. "
+             "first operand = exact duplicates plus collinear/coplanar points; one leaf kind is a Boolean result) under identity/scaled/rotated/anisotropic/far-translated placement. "
              "stage degen: case idx%4 selects single point / lattice line / lattice plane / fewer than 4 points, all on "
              "small-integer coordinates so 'spans no volume' is exact. stage mink: case idx%8 enumerates "
              "{Sum,Difference} x {A convex?} x {B convex?}; operands are primitives, hulls or extruded concave polygons "
@@ -58,6 +58,11 @@ CHECK = {
         "Minkowski: guard band tau = 1e-6*extent + 100*max(GetTolerance of A, B, result) around every surface; a sample "
         "decides only if its winding number is within 0.01 of 0 or 1 and it is farther than tau from the surface it is "
         "classified against; reach(B) = max vertex norm of B (exact for a polyhedron)",
+        "violation keys of the Hull clauses end in the generator family, except that the families containing exactly "
+        "collinear triples on the hull boundary by construction (rings, rulings, lattice-block, simplex-lattice, "
+        "cube-surface, Manifold inputs with a refined copy or a Boolean-result leaf) share the class "
+        "'collinear-by-construction', on which the open QuickHull findings are keyed; the other families (uniform, ball, "
+        "cospherical, clusters, flat facet, shell+core, plain Manifold inputs) keep every clause fully sensitive",
         "an edge is reported as concave only if, besides the plane test at 10*eps_hull, the segment between the two "
         "wing-tip vertices leaves the solid (winding number 0 and farther than the threshold from the surface): a "
         "flipped coplanar triangle (zero-thickness fold inside a flat facet) is counted, not judged",
@@ -71,7 +76,7 @@ CHECK = {
 TEXT = {
     "text": ("Held on the executions observed, except for the open findings listed in known_findings.d/C16.json. For every "
              "generated input the exported hull is checked by an independent oracle: closed manifold (C01 clauses), "
-             "genus 0, positive volume, every vertex equal to an input point, every edge convex and every input point "
+             "genus 0, positive volume, every vertex equal to an input point, bounding box equal to the input's, every edge convex and every input point "
              "on or below every face plane within QuickHull's epsilon (confirmed on the solid by winding number and "
              "brute-force distance), non-empty on volume-spanning input and empty on exactly degenerate lattice input. "
              "Minkowski sum/difference are checked point-wise with a winding-number classifier: a+b inside the sum for "
